@@ -39,7 +39,7 @@ class C16(Check):
     def bounds(self, tier):
         if tier == 'quick':
             return {'formula (T,K,n)': [(3, 2, 1), (4, 2, 2), (3, 3, 1)], 'finite': 'Theta=t*I_n, n in {1,40,100}'}
-        return {'formula (T,K,n)': [(3, 2, 1), (4, 2, 2), (3, 3, 1), (5, 2, 2), (4, 3, 2), (4, 2, 3), (6, 2, 1)],
+        return {'formula (T,K,n)': [(3, 2, 1), (4, 2, 2), (3, 3, 1), (5, 2, 2), (4, 3, 2), (4, 2, 3), (6, 2, 1), (6, 3, 2), (7, 2, 1), (5, 3, 3)],
                 'finite': 'Theta=t*I_n, n in {1,40,100,200}'}
 
     def configs(self, tier):
